@@ -189,6 +189,9 @@ def run_plumbing(chk: Check, prog: Program) -> None:
             for cname, cinfo in prog.classes.items():
                 if "evaluate" in cinfo.methods:
                     it.hooks[f"{cname}.evaluate"] = h_eval
+                if "__str__" in cinfo.methods and prog.is_subclass(cname, "BinaryTreeNode"):
+                    # the printed form of a child is some text (an evaluate() that consults it must not depend on it)
+                    it.hooks[f"{cname}.__str__"] = lambda it2, info, args, kwargs: Opaque(f"text-of-{args[0].cid}", truthy=True)
             for k in list(EXPECT_BIN) + list(EXPECT_UN):
                 it.hooks[f"{k}.operate"] = h_operate
             return it.call_function(m, [node, ctx], {})
